@@ -72,6 +72,22 @@ def run_focus(prop, focus, tier, out):
                 for e in evs:
                     flavours["probe"] = flavours.get("probe", 0) + 1
                     out.nontrivial.add((seed, e["flavour"], "probe"))
+            # link / list changes simulated on systems whose usage patterns are in two zones far apart, in both assignments
+            want_l, got_l = (6, 0) if tier == "quick" else (60, 0)
+            for seed in range(base + 9000, base + 9000 + 20 * want_l):
+                if got_l >= want_l:
+                    break
+                evs = simcheck.probe_links(ns, tid, seed)
+                if not evs:
+                    continue
+                got_l += 1
+                tid += len(evs) + 1
+                events += evs
+                for e in evs:
+                    flavours["probe-links"] = flavours.get("probe-links", 0) + 1
+                    out.nontrivial.add((seed, e["flavour"], "probe"))
+            if got_l == 0:
+                raise MachineryError("vacuous run: no simulated link change recomputed a usage pattern")
         trace = wd + "/sim.ndjson"
         tracecheck.write_trace(trace, events, keys=KEYS)
         fails, _n, res2 = tracecheck.validate(wd, "Trace_Sim", trace, {"Focus": tlc.tla_str(focus)}, timeout=3000)
